@@ -237,9 +237,51 @@ func c15StoredBlockInPartial(b *core.B) {
 	}
 }
 
+// c15FunctionFromElsewhere: a template function defined by one template and called in
+// another (a partial, or a later render with the same context) fails in its body: for the
+// template that is being executed the failing statement is the tag that holds the call - the
+// lines of the function's body count in the text that defined it, not in this one.
+func c15FunctionFromElsewhere(b *core.B) {
+	for _, cache := range []bool{false, true} {
+		for k := 0; k < 3; k++ {
+			if !b.Begin(fmt.Sprintf("function defined elsewhere, cache=%v, shift %d", cache, k)) {
+				continue
+			}
+			b.NonTrivialStr("function-from-elsewhere", fmt.Sprint(cache, k))
+			b.Count("function-defined-in-another-template")
+			def := strings.Repeat("t\n", k) + "<% let f = fn() { %>\nx\n<%= nope %>\n<% } %>\n"
+			main := def + "<%= partial(\"p\") %>\n"
+			var r1, r2 R
+			func() {
+				plush.CacheEnabled = cache
+				defer func() { plush.CacheEnabled = false }()
+				ctx := c15Ctx()
+				ctx.Set("partialFeeder", func(n string) (string, error) { return "p1\n<%= f() %>", nil })
+				r1 = render(b, main, ctx)
+				// the function outlives the render that defined it
+				ctx2 := c15Ctx()
+				if r := render(b, def, ctx2); r.Err == nil {
+					r2 = render(b, "<%= f() %>", ctx2)
+				}
+			}()
+			if r1.Pan != nil || r2.Pan != nil {
+				continue
+			}
+			want := fmt.Sprintf("line %d: could not call partial function: line 2:", 5+k)
+			if r1.Err == nil || !strings.HasPrefix(r1.Err.Error(), want) {
+				b.Violate(fmt.Sprintf("wrong-line|function-defined-in-another-template|cache=%v", cache), fmt.Sprintf("want %q..., got %v", want, r1.Err))
+			}
+			if r2.Err == nil || !strings.HasPrefix(r2.Err.Error(), "line 1:") {
+				b.Violate(fmt.Sprintf("wrong-line|function-defined-by-an-earlier-render|cache=%v", cache), fmt.Sprintf("a one-line template; got %v", r2.Err))
+			}
+		}
+	}
+}
+
 func c15Run(b *core.B) {
 	if b.Batch == 0 {
 		c15SelfInclusion(b)
+		c15FunctionFromElsewhere(b)
 		c15StoredBlockInPartial(b)
 	}
 	r := b.Rng(1)
